@@ -29,9 +29,10 @@ Lib(a) ==
     write   |-> << I("set", <<R0, 10 + a>>), I("set", <<R1, 1>>), I("array", <<R1, 0>>), I("set", <<R2, 0>>),
                    I("store", <<R0, 0, R2>>), I("ret_reg", <<R0>>), I("ret_arr", <<0>>) >>,
     bump    |-> << I("set", <<R3, 1>>), I("add", <<R0, R0, R3>>) >>,
+    gates   |-> << I("h", <<Q0>>), I("h", <<Q1>>) >>,          \* (faults at the first virtual qubit that is not allocated)
     keep1   |-> << I("array", <<C1, 3>>), I("create_epr", <<5, 6, 7, 8, 9>>), I("wait_all", <<3, C0, C1>>) >>,
     keepfree|-> << I("array", <<C1, 3>>), I("create_epr", <<5, 6, 7, 8, 9>>), I("qfree", <<Q1>>), I("wait_all", <<3, C0, C1>>) >> ]
-ProgNames == {"alloc0", "alloc1", "free0", "free1", "write", "bump", "keep1", "keepfree"}
+ProgNames == {"alloc0", "alloc1", "free0", "free1", "write", "bump", "gates", "keep1", "keepfree"}
 Addrs == {0, 1, 2, 3}
 
 NoApp == [NewMachine(Addrs, 0, << >>) EXCEPT !.status = "noapp"]
